@@ -26,6 +26,7 @@ func init() {
 
 func runC17(c *Ctx) {
 	p := c.P
+	rulePeekCountsOnly(c, "R17.1")
 	hb := p.Fn("rt.HasBody")
 	r := hb.Params[0]
 	isReq := vOrigins(oIsValue(r))
@@ -253,6 +254,11 @@ func runC17(c *Ctx) {
 			return isAl && al.Heap && al.Parent() == npr
 		})
 		c.obI("R17.1", r, "wrapper-always-new", ok, "newPeekingReader returns nil (no body) or a wrapper allocated by this call", "origin "+describeOrigin(bad))
+		// … and nil ONLY for a nil body: every stream that is there gets wrapped (an in-memory or "empty-looking" body is
+		// still read, and closed, through the wrapper)
+		if isNilConst(resOf(r, 0)) {
+			c.obI("R17.1", r, "no-wrapper-only-for-nil-body", guardedBy(r, nil, factNil(vIs(npr.Params[0]), true)), "newPeekingReader returns nil only when the body it is given is nil", "a body that is present can be left unwrapped")
+		}
 	}
 	for _, ci := range allCalls(hc) {
 		cc := ci.Common()
